@@ -260,6 +260,11 @@ void NifFile::SetShapeOrder(const std::vector<std::string>& order) {
 			sortState.rootShapeOrder.push_back(GetBlockID(shape));
 	}
 
+	// Only an order that names every shape exactly once can be applied
+	std::set<uint32_t> uniqueShapes(sortState.rootShapeOrder.begin(), sortState.rootShapeOrder.end());
+	if (uniqueShapes.size() != order.size())
+		return;
+
 	auto root = GetRootNode();
 	if (root) {
 		sortState.newIndex = GetBlockID(root);
